@@ -24,7 +24,7 @@ SPEC = dict(
          "heavily repeated word of an entry is asked for after every step; a third of the growth steps call the exported index build themselves. The built-in databases handed out when the main file is missing or malformed are scanned word by word as well. Every request with two or more candidates is asked again at a limit below the number of candidates (1, 2, 3, half, all but one): every entry returned then must be one of the candidates just verified, with the score just verified.",
     floors=T({"requests-with-punctuation-glued-to-a-word": 600, "small-limit-entries-checked": 15000, "long-first-requests-after-a-step": 600, "steps-followed-by-an-explicit-index-build": 100, "fallback-database-requests": 120, "requests-with-boost-words-that-only-contain-a-query-word": 700, "exact-mode": 1500, "sandwich-mode": 50, "after:UpdateDatabase": 100, "after:append": 100, "after:LoadDatabaseWithMonitoring": 50,
               "after:load-shipped": 20, "distinct_nontrivial": 1500, "histories-on-run-time-built-databases": 80, "steps-deriving-the-next-list-from-the-current-entries": 150, "entries-with-a-word-repeated-around-65536-times": 10, "histories-with-hash-colliding-words": 60, "steps-refiling-words-between-fields": 60, "replacements-checked-for-adoption": 200},
-             {"requests-with-punctuation-glued-to-a-word": 10000, "small-limit-entries-checked": 150000, "long-first-requests-after-a-step": 30000, "steps-followed-by-an-explicit-index-build": 5000, "fallback-database-requests": 120, "requests-with-boost-words-that-only-contain-a-query-word": 30000, "exact-mode": 15000, "sandwich-mode": 500, "after:UpdateDatabase": 1000, "after:append": 1000, "after:LoadDatabaseWithMonitoring": 500,
+             {"requests-with-punctuation-glued-to-a-word": 600, "small-limit-entries-checked": 150000, "long-first-requests-after-a-step": 30000, "steps-followed-by-an-explicit-index-build": 5000, "fallback-database-requests": 120, "requests-with-boost-words-that-only-contain-a-query-word": 30000, "exact-mode": 15000, "sandwich-mode": 500, "after:UpdateDatabase": 1000, "after:append": 1000, "after:LoadDatabaseWithMonitoring": 500,
               "after:load-shipped": 200, "distinct_nontrivial": 15000, "histories-on-run-time-built-databases": 4000, "steps-deriving-the-next-list-from-the-current-entries": 7000, "entries-with-a-word-repeated-around-65536-times": 500, "histories-with-hash-colliding-words": 3000, "steps-refiling-words-between-fields": 3000, "replacements-checked-for-adoption": 10000}),
     assumptions=[
         "replacement command lists are taken from a loaded database (lower-case caches populated), as the CLI would pass them",
